@@ -409,6 +409,13 @@ func c01FileClause2(x, enc []byte, f *mp4.File) (string, string) {
 		return "", "" // listed order normalisation (moov.trak-regroup)
 	}
 	if len(x) != len(enc) {
+		// listed normalisation (header.largesize->32-bit): a top-level box other than mdat with a 64-bit header
+		// is written with a 32-bit header
+		if y := largeTopTo32(x); len(y) == len(enc) {
+			x = y
+		}
+	}
+	if len(x) != len(enc) {
 		// which top-level box does the input end in?
 		pos := 0
 		for pos+8 <= len(x) {
@@ -452,6 +459,35 @@ func c01FileClause2(x, enc []byte, f *mp4.File) (string, string) {
 		pos += sz
 	}
 	return "", ""
+}
+
+// largeTopTo32 rewrites every complete top-level box of x that has a 64-bit header, is not mdat and fits a
+// 32-bit size into the 32-bit header form.
+func largeTopTo32(x []byte) []byte {
+	var y []byte
+	pos := 0
+	for pos+8 <= len(x) {
+		sz := uint64(binary.BigEndian.Uint32(x[pos:]))
+		hdr := 8
+		if sz == 1 && pos+16 <= len(x) {
+			sz = binary.BigEndian.Uint64(x[pos+8:])
+			hdr = 16
+		}
+		if sz < uint64(hdr) || sz > uint64(len(x)-pos) {
+			break
+		}
+		end := pos + int(sz)
+		if hdr == 16 && string(x[pos+4:pos+8]) != "mdat" {
+			var h [8]byte
+			binary.BigEndian.PutUint32(h[:], uint32(sz-8))
+			copy(h[4:], x[pos+4:pos+8])
+			y = append(append(y, h[:]...), x[pos+16:end]...)
+		} else {
+			y = append(y, x[pos:end]...)
+		}
+		pos = end
+	}
+	return append(y, x[pos:]...)
 }
 
 // e1RunFileSeed explores ring 1 of one file seed.
@@ -515,6 +551,12 @@ func e1RunFileSeed(idx int, s e1Seed, p e1Props, thorough bool) *e1SeedReport {
 			rep.Ring2++
 			out := e1EvalFile(cd.X, p)
 			for _, fl := range out.Fails {
+				if fl.Sig == "file: length changed" && strings.Contains(fl.Extra, "shorter") && (cd.Kind == "relabel" || c1.Kind == "relabel") {
+					// listed normalisation, as in ring 1: a relabelled box is parsed under another type's counts and
+					// the bytes those counts do not declare are not kept
+					rep.ByKind["normalised: trailing bytes dropped"]++
+					continue
+				}
 				addFail(fl, c1.Desc+" ; "+cd.Desc, cd.X)
 			}
 			if out.Accepted {
